@@ -25,7 +25,7 @@ MAX_PLAYBACKS = 3
 def main():
     ap = argparse.ArgumentParser()
     ap.add_argument("id")
-    ap.add_argument("--tier", default=os.environ.get("VERIF_TIER", "quick"), choices=["quick", "thorough"])
+    ap.add_argument("--tier", default=os.environ.get("VERIF_TIER", "quick"), choices=["quick", "thorough", "deep"])
     ap.add_argument("--replay")
     ap.add_argument("--only", default=None)
     ap.add_argument("--list", action="store_true")
@@ -45,7 +45,10 @@ def main():
         sys.exit(rc)
 
     t0 = time.time()
-    hs = [h for h in kani_run.discover() if h.id == prop and (a.tier == "thorough" or h.tier == "quick")]
+    # tiers: quick < thorough < deep. `deep` harnesses are kept for reference and development only: CBMC did not finish them
+    # within an hour in this sandbox, so neither registered command runs them (bin/check <ID> --tier deep does).
+    rank = {"quick": 0, "thorough": 1, "deep": 2}
+    hs = [h for h in kani_run.discover() if h.id == prop and rank.get(h.tier, 2) <= rank[a.tier]]
     if a.only:
         hs = [h for h in hs if any(x and x in h.name for x in a.only.split(','))]
     if a.no_kani:
@@ -78,7 +81,7 @@ def main():
         plug = importlib.import_module("props." + prop)
     if plug is not None and not a.only:
         say("== %s: engine M (MIR -> SMT-LIB, z3/cvc5) tier=%s" % (prop, a.tier))
-        pr = plug.run(a.tier, logdir)
+        pr = plug.run("thorough" if a.tier == "deep" else a.tier, logdir)
         for q in pr["queries"]:
             queries += 1
             samples.append({k: q[k] for k in q if k in ("name", "verdict", "bounds", "solver", "wall_s", "why", "model")})
